@@ -231,6 +231,9 @@ func c10(c *evid.Ctx) {
 							keys[i] = ref.SHA1(benc.Encode(val))
 							a["v"] = val
 							a["seq"] = int64(0)
+							if !v.valid && r.Intn(3) == 0 {
+								delete(a, "seq") // a malformed write must be just as silent when its token is bad
+							}
 						}
 						m := srv.Query(method, "w", a)
 						c.WAL("o=%v d=%v via=%s %s [%s] from %v", cb.o, cb.d, via, method, v.name, v.from)
